@@ -47,7 +47,7 @@ def gen(r, tier, i):
                 p['cond'] = {'seq': [r.random() < 0.6 for _ in range(r.randint(2, 6))]}
         for p in procs:
             p['toggle'] = r.choice([0, 1, 2, 3])
-    calls = sched.cap_events(r, procs, sched.gen_calls(r, grid, prec, maxcalls=6, end_with_update=True), grid, prec)
+    calls = sched.cap_events(r, procs, sched.gen_calls(r, grid, prec, maxcalls=6, end_with_update=True, zero=True), grid, prec)
     return {'grid': grid, 'precision': prec, 't0': t0, 'procs': procs, 'calls': calls}
 
 
